@@ -44,6 +44,7 @@ type spec struct {
 	Shapes []string // step order of memory.WriteTo
 	Orders map[string][]string // function -> callees whose call order is emitted
 	Erro   bool                // emit the Traceable table of package erro
+	Pure   map[string][]string // name -> root functions whose transitive package-local writes are emitted
 }
 
 var specs = []spec{
@@ -67,6 +68,9 @@ var specs = []spec{
 		"baseMocker.applyByName":   {"FuncName", "Apply"},
 	}},
 	{Out: "Erro", Arch: "amd64", Pkg: "./erro", Erro: true},
+	{Out: "ArgPurity", Arch: "amd64", Pkg: "./arg", Pure: map[string][]string{
+		"arg_eval": {"*.Eval", "equal", "ExpandVariadic"},
+	}},
 	{Out: "Page", Arch: "amd64", Pkg: "./internal/bytecode/memory", Funcs: []string{"PageStart"}, Loops: []string{"mProtectCrossPage"}, Shapes: []string{"WriteTo"}},
 }
 
@@ -123,7 +127,7 @@ func runSpec(repo, out string, sp spec) result {
 	if len(sp.Shapes) > 0 {
 		sb.WriteString("From Goom Require Import Model.WriteTo.\n")
 	}
-	if len(sp.Orders) > 0 || sp.Erro {
+	if len(sp.Orders) > 0 || sp.Erro || len(sp.Pure) > 0 {
 		sb.WriteString("From Coq Require Import String.\nOpen Scope string_scope.\n")
 	}
 	sb.WriteString("Open Scope Z_scope.\n\n")
@@ -205,6 +209,22 @@ func runSpec(repo, out string, sp spec) result {
 				sb.WriteString(s)
 				res.OK = append(res.OK, "erro")
 			}
+		}
+	}
+	{
+		var ns []string
+		for n := range sp.Pure {
+			ns = append(ns, n)
+		}
+		sort.Strings(ns)
+		for _, n := range ns {
+			s, err := trPurity(pkg, n, sp.Pure[n])
+			if err != nil {
+				res.Failed[n] = err.Error()
+				continue
+			}
+			sb.WriteString(s)
+			res.OK = append(res.OK, n)
 		}
 	}
 	for _, fn := range sp.Loops {
